@@ -44,12 +44,16 @@ TraceCase ==
     /\ wl' = Writer(C.man, C.t, C.ref, C.pf, C.fl)
     /\ lbl' = ApplyTampers(RecWL, C.tam)
     /\ res' = ReadWith(Ev.tl, C.rd)
+    /\ lbl2' = lbl'                               \* the specification's reader is pure
+    /\ res2' = ReadWith(Ev.tla, C.rd)            \* second read: the operator applied to the map as recorded after the first
     \* ... compared with what the implementation produced (after the assignments: evaluated as plain predicates,
     \* IF keeps the step deterministic). Each stage is applied to the RECORDED input of that stage.
     /\ Same("writer", wl', RecWL)
     /\ Same("keylen", [k \in DOMAIN Ev.wl |-> Len(k)], [k \in DOMAIN Ev.wl |-> Ev.wl[k].klen])
     /\ Same("tamper", Items(lbl'), Ev.tl)
     /\ Same("reader", res', Ev.res)
+    /\ Same("purity", Ev.tl, Ev.tla)
+    /\ Same("reader2", res2', Ev.res2)
     /\ Same("head", IF Ev.res.ok THEN Ev.res.digest ELSE 0, Ev.head)
     /\ Same("prefetch", ExpPf, Ev.pfread)
 
